@@ -1765,11 +1765,9 @@ func (ctx *RenderContext) toBool(val interface{}) bool {
 	switch v := val.(type) {
 	case bool:
 		return v
-	case int, int8, int16, int32, int64:
+	case int:
 		return v != 0
-	case uint, uint8, uint16, uint32, uint64:
-		return v != 0
-	case float32, float64:
+	case float64:
 		return v != 0
 	case string:
 		return v != ""
@@ -1779,7 +1777,8 @@ func (ctx *RenderContext) toBool(val interface{}) bool {
 		return len(v) > 0
 	}
 
-	// Try reflection for other types
+	// Try reflection for other types (every other numeric type included: a
+	// zero is falsy whatever its width or signedness)
 	rv := reflect.ValueOf(val)
 	switch rv.Kind() {
 	case reflect.Bool:
